@@ -27,7 +27,7 @@ CONSTANTS
   MaxOps = %d
   Acts <- ActsAll
 VIEW %s
-INVARIANTS TypeOK PoolOK
+INVARIANTS TypeOK PoolOK WindowNewest
 CHECK_DEADLOCK FALSE
 """ % (evm, ont, max_blocks, max_tx, max_stale, max_lag, max_block_txs, max_height, max_ops, view)
     if props:
